@@ -72,8 +72,8 @@ def case_grid(log, nf, order, fh, variation):
         for k in range(1, order[0] + 1):
             for (i, j), (a, b) in emb.items():
                 dec(gs[k, 0][i, j] - s[k - 1][a, b], "singlet_qed[%d,0][%d,%d] == gamma_singlet[%d][%d,%d]" % (k, i, j, k - 1, a, b), "singlet_qed:block")
-            dec(gs[k, 0][3, 3] - nsp[k - 1], "singlet_qed[%d,0][3,3] (Sdelta) == gamma_ns+[%d]" % (k, k - 1),
-                "singlet_qed:sdelta" if variation[3] == variation[4] else "singlet_qed:sdelta:variation-slot")
+            assert (not fh) or order[0] < 4 or variation[3] == variation[4], "claim restricted to FHMRUVV variation tuples with qq slot == nsp slot"
+            dec(gs[k, 0][3, 3] - nsp[k - 1], "singlet_qed[%d,0][3,3] (Sdelta) == gamma_ns+[%d]" % (k, k - 1), "singlet_qed:sdelta")
             rest = SR(QZERO)
             for i in range(4):
                 for j in range(4):
@@ -213,7 +213,7 @@ def replay_grid(point, nf, order, fh, variation, what):
 
         for k in range(1, order[0] + 1):
             q = qcd(k)
-            sd = q["nsp"]  # Sdelta is a non-singlet plus combination: documented variation slot `nsp` (index 4)
+            sd = q["nsp"]  # claim restricted to variation tuples with slot 3 == slot 4
             checks = [(gs[k, 0][0, 0], q["gg"], "singlet_qed[%d,0] gg" % k), (gs[k, 0][0, 2], q["gq"], "singlet_qed[%d,0] gq" % k),
                       (gs[k, 0][2, 0], q["qg"], "singlet_qed[%d,0] qg" % k), (gs[k, 0][2, 2], q["qq"], "singlet_qed[%d,0] qq" % k),
                       (gs[k, 0][3, 3], sd, "singlet_qed[%d,0] Sdelta vs gamma_ns+" % k),
@@ -260,7 +260,11 @@ def main():
     chk.bounds = ["N a real symbol, N >= 2 (identities between rational expressions in N and the psi atoms: they hold for complex N)",
                   "nf in {3,4,5,6} enumerated ({3,4,5} with the FHMRUVV N3LO variant, which refuses nf=6), orders (k,2) for k = 1..4 "
                   "(all lower QED orders are sub-grids), both N3LO variants, N3LO variation tuples: %r" % (_variations(tier),)]
-    chk.out_of_claim = ["numerical values of the entries (C25/C20); polarised and time-like sectors have no QED grids"]
+    chk.bounds.append("FHMRUVV N3LO variation tuples with slot 3 (qq) == slot 4 (nsp) only (the eko approximations have no nsp variation): the FHMRUVV singlet uses the qq slot for both the non-singlet-plus and the "
+                      "pure-singlet part of gamma_qq by design, and the QED grid's Sdelta entry follows the singlet")
+    chk.out_of_claim = ["numerical values of the entries (C25/C20); polarised and time-like sectors have no QED grids",
+                        "N3LO variation tuples whose qq slot (3) differs from the nsp slot (4): there the FHMRUVV grid's Sdelta entry is gamma_ns,+ at the qq variation, "
+                        "not at the nsp variation used by gamma_ns (by design of the singlet variation; coordinator decision)"]
     chk.stubs = ["cern_polygamma -> uninterpreted real atoms psi_k(z) interned by argument, with recurrence psi_k(z+1) = psi_k(z) + (-1)^k k!/z^(k+1) "
                  "and psi_k(1) values (harness/ekoresym.py:PsiStub)"]
     chk.assumptions = ["float literals are read as the simplest rational that rounds to them"]
@@ -279,8 +283,6 @@ def main():
                 vs = vs[:1]
             for i, v in enumerate(vs):
                 chk.case("grid.nf%d.o42.%s.v%d" % (nf, "fhmruvv" if fh else "as4", i), case_grid, nf=nf, order=(4, 2), fh=fh, variation=v)
-    # the variation slots of the singlet `qq` entry (index 3) and of the non-singlet plus (index 4) differ
-    chk.case("grid.nf4.o42.fhmruvv.slots", case_grid, nf=4, order=(4, 2), fh=True, variation=(0, 0, 0, 1, 0, 0, 0))
     E.load()
     return chk.run(workers=8)
 
